@@ -82,8 +82,10 @@ impl VerifiedExtendedHeaders {
     #[verifier::external_body]
     pub fn as_ref(&self) -> (r: &[ExtendedHeader]) ensures r@ == self.0@ { unimplemented!() }
 }
+// (the trigger is the named predicate, not hs[i]: instantiating it creates no new hs[..] term, so no matching loop)
+pub open spec fn link_at(hs: Seq<ExtendedHeader>, i: int) -> bool { adjacent_ok(hs[i], hs[i + 1]) }
 pub open spec fn chain_ok(hs: Seq<ExtendedHeader>) -> bool {
-    forall|i: int| 0 < i < hs.len() ==> adjacent_ok(hs[i - 1], #[trigger] hs[i])
+    forall|i: int| 0 <= i < hs.len() - 1 ==> #[trigger] link_at(hs, i)
 }
 pub open spec fn in_batch(hs: Seq<ExtendedHeader>, n: int, k: Hash) -> bool {
     exists|j: int| 0 <= j < n && (#[trigger] hs[j]).hash_ == k
@@ -93,7 +95,7 @@ pub proof fn lemma_chain_heights(hs: Seq<ExtendedHeader>, i: int)
     ensures hs[i].h == hs[0].h + i
     decreases i
 {
-    if i > 0 { lemma_chain_heights(hs, i - 1); assert(adjacent_ok(hs[i - 1], hs[i])); }
+    if i > 0 { lemma_chain_heights(hs, i - 1); assert(link_at(hs, i - 1)); }
 }
 
 
@@ -537,8 +539,14 @@ pub proof fn lemma_insert_final2(o: InMemoryStoreInner, n: InMemoryStoreInner, h
 {
     reveal(ins_pre); reveal(hashes_fresh);
     lemma_chain_heights(hs, hs.len() as int - 1);
-    assert(tables_after(o, n, hs, lo)) by { reveal(tables_upto); }
+    lemma_upto_after(o, n, hs, lo);
     lemma_insert_final(o, n, hs, lo, hi);
+}
+pub proof fn lemma_upto_after(o: InMemoryStoreInner, n: InMemoryStoreInner, hs: Seq<ExtendedHeader>, lo: int)
+    requires tables_upto(o.headers@, o.height_to_hash@, n.headers@, n.height_to_hash@, hs, lo, hs.len() as int)
+    ensures tables_after(o, n, hs, lo)
+{
+    reveal(tables_upto);
 }
 pub proof fn lemma_insert_inv(o: InMemoryStoreInner, n: InMemoryStoreInner, hs: Seq<ExtendedHeader>, lo: int, hi: int)
     requires
@@ -627,22 +635,21 @@ pub proof fn lemma_insert_view(o: InMemoryStoreInner, n: InMemoryStoreInner, hs:
 }
 pub proof fn lemma_insert_linked(o: InMemoryStoreInner, n: InMemoryStoreInner, hs: Seq<ExtendedHeader>, lo: int, hi: int)
     requires
-        o.inv(), hs.len() > 0, chain_ok(hs), lo == hs[0].h, hi == lo + hs.len() - 1, 1 <= lo, hi <= u64::MAX,
-        o.header_ranges@.disjoint(iv(lo, hi)),
-        n.header_ranges.wf(), n.header_ranges@ == o.header_ranges@.union(iv(lo, hi)),
-        n.sampled_ranges.wf(), n.sampled_ranges@ == o.sampled_ranges@.difference(iv(lo, hi)),
-        n.pruned_ranges.wf(), n.pruned_ranges@ == o.pruned_ranges@.difference(iv(lo, hi)),
-        forall|j: int| 0 <= j < hs.len() ==> !o.headers@.contains_key(#[trigger] hs[j].hash_),
-        forall|a: int, b: int| 0 <= a < b < hs.len() ==> (#[trigger] hs[a]).hash_ != (#[trigger] hs[b]).hash_,
-        tables_after(o, n, hs, lo),
-        o.linked(), boundary_ok(o, hs, lo, hi),
+        hs.len() > 0, chain_ok(hs), lo == hs[0].h, hi == lo + hs.len() - 1, 1 <= lo, hi <= u64::MAX,
+        // key sets of the height index (old keys, new keys, disjoint)
+        forall|h: u64| #![trigger n.height_to_hash@.contains_key(h)] n.height_to_hash@.contains_key(h) <==> (o.height_to_hash@.contains_key(h) || lo <= h < lo + hs.len()),
+        forall|h: u64| #![trigger o.height_to_hash@.contains_key(h)] o.height_to_hash@.contains_key(h) <==> o.header_ranges@.contains(h as int),
+        forall|h: u64| lo <= h < lo + hs.len() ==> !o.height_to_hash@.contains_key(h),
+        !o.height_to_hash@.contains_key(0),
+        // what the new store holds at each height
         forall|j: int| 0 <= j < hs.len() ==> n.hdr((lo + j) as u64) == #[trigger] hs[j],
         forall|h: u64| o.header_ranges@.contains(h as int) ==> n.hdr(h) == o.hdr(h),
+        forall|h: u64| #![trigger o.hdr(h)] o.height_to_hash@.contains_key(h) ==> o.hdr(h).h == h,
+        o.linked(), boundary_ok(o, hs, lo, hi),
     ensures n.linked()
 {
     let q = hs.len() as int;
     assert forall|j: int| 0 <= j < q implies hs[j].h == lo + j by { lemma_chain_heights(hs, j); }
-    assert forall|h: u64| #![trigger n.height_to_hash@.contains_key(h)] n.height_to_hash@.contains_key(h) <==> (o.height_to_hash@.contains_key(h) || lo <= h < lo + q) by {}
     // links
     if o.linked() && boundary_ok(o, hs, lo, hi) {
         assert forall|h: u64| #![trigger n.height_to_hash@.contains_key(h)] h < u64::MAX && n.height_to_hash@.contains_key(h) && n.height_to_hash@.contains_key((h + 1) as u64)
@@ -652,7 +659,8 @@ pub proof fn lemma_insert_linked(o: InMemoryStoreInner, n: InMemoryStoreInner, h
             if in0 && in1 {
                 let j = h - lo;
                 assert(n.hdr((lo + j) as u64) == hs[j]); assert(n.hdr((lo + (j + 1)) as u64) == hs[j + 1]);
-                assert(adjacent_ok(hs[j], hs[j + 1]));
+                assert(link_at(hs, j));
+                assert(adjacent_ok(n.hdr(h), n.hdr(h1)));
             } else if in0 && !in1 {
                 // h == hi, h+1 old
                 assert(h == hi);
@@ -660,15 +668,20 @@ pub proof fn lemma_insert_linked(o: InMemoryStoreInner, n: InMemoryStoreInner, h
                 assert(n.hdr((lo + (q - 1)) as u64) == hs[q - 1]);
                 assert(n.hdr(h1) == o.hdr(h1));
                 assert(o.hdr(h1).h == h1);
+                assert(verify_ok_spec(hs.last(), o.hdr(h1)));
+                assert(adjacent_ok(n.hdr(h), n.hdr(h1)));
             } else if !in0 && in1 {
                 assert(h1 == lo);
                 assert(o.header_ranges@.contains(lo - 1));
                 assert(n.hdr((lo + 0) as u64) == hs[0]);
                 assert(n.hdr(h) == o.hdr(h));
                 assert(o.hdr(h).h == h);
+                assert(verify_ok_spec(o.hdr(h), hs[0]));
+                assert(adjacent_ok(n.hdr(h), n.hdr(h1)));
             } else {
                 assert(o.height_to_hash@.contains_key(h) && o.height_to_hash@.contains_key(h1));
                 assert(n.hdr(h) == o.hdr(h) && n.hdr(h1) == o.hdr(h1));
+                assert(adjacent_ok(o.hdr(h), o.hdr(h1)));
             }
         }
     }
@@ -691,7 +704,18 @@ pub proof fn lemma_insert_final(o: InMemoryStoreInner, n: InMemoryStoreInner, hs
 {
     lemma_insert_inv(o, n, hs, lo, hi);
     lemma_insert_view(o, n, hs, lo, hi);
-    if o.linked() && boundary_ok(o, hs, lo, hi) { lemma_insert_linked(o, n, hs, lo, hi); }
+    if o.linked() && boundary_ok(o, hs, lo, hi) {
+        assert forall|h: u64| lo <= h < lo + hs.len() implies !o.height_to_hash@.contains_key(h) by {
+            assert(iv(lo, hi).contains(h as int));
+            assert(!o.header_ranges@.contains(h as int));
+        }
+        assert forall|h: u64| #![trigger o.hdr(h)] o.height_to_hash@.contains_key(h) implies o.hdr(h).h == h by {
+            let k = o.height_to_hash@[h];
+            assert(o.headers@.contains_key(k));
+        }
+        assert(!o.height_to_hash@.contains_key(0)) by { lemma_view_bounds(o.header_ranges.0@); }
+        lemma_insert_linked(o, n, hs, lo, hi);
+    }
 }
 //@end-export
 } // verus!
